@@ -308,6 +308,9 @@ func runGroup(line string) *result {
 		for _, op := range ops {
 			r.lines = append(r.lines, [2]string{op, t.exec(r, op)})
 			r.count("g:" + strings.Fields(op)[1])
+			if len(r.fails) > 0 {
+				break // the tree is off; every further wait would run into its bound
+			}
 		}
 		t.finish(r)
 		r.nontriv = line
